@@ -315,7 +315,12 @@ def decision_lemma(m):
 
 def compose(run: Run, model, dfs, thorough: bool, model_ok=True):
     """Record real runs, re-execute them through the composed model inside Coq, check a sample of decisions by interval."""
-    from harness import common
+    cases, metas, lemmas = compose_record(run, model, dfs, thorough)
+    compose_coq(run, cases, metas, lemmas, thorough)
+
+
+def compose_record(run: Run, model, dfs, thorough: bool):
+    """Real runs, recorded call by call and encoded as Coq literals (implementation side only)."""
     seed = run.seed % 1000
     plan = [
         # (algo, n_iter, nb, schedule name, annealing settings, random_order, cohort)
@@ -353,9 +358,13 @@ def compose(run: Run, model, dfs, thorough: bool, model_ok=True):
             m["run"] = dict(meta)
         lemmas += lem
     run.extra["composed_chain_runs"] = len(cases)
+    return cases, metas, lemmas
+
+
+def compose_coq(run: Run, cases, metas, lemmas, thorough: bool):
+    """The Coq side of `compose_record` (separate coqc processes: may run in a background thread)."""
+    from harness import common
     if not cases:
-        return
-    if not model_ok:
         return
     ok, out = common.make(CHAIN_TARGETS)
     if not ok:
